@@ -3,6 +3,7 @@ import Gofasta.Driver.C17
 import Gofasta.Driver.C16
 import Gofasta.Driver.C06
 import Gofasta.Driver.C10
+import Gofasta.Driver.Var
 namespace Gofasta.Driver
 
 def dispatch (c : Case) : Verdict :=
@@ -13,6 +14,8 @@ def dispatch (c : Case) : Verdict :=
   | "C06" => runC06 c
   | "C07" => runC06 c
   | "C10" => runC10 c
+  | "VAR" => runVar c
+  | "REL" => runRel c
   | _ => { agree := false, spec := "na", model := "unknown-property" }
 
 end Gofasta.Driver
